@@ -32,7 +32,7 @@ func init() {
 	register(&PropSpec{
 		ID: "C17",
 		Explain: "Grouping semantics over all feeds is not decided; decided are structural clauses of the NYCT alerts extension for every option combination: " +
-			"(ALRT) the timetabled no-service table is exactly {no midday, no overnight, no weekend service} and an alert is dropped only under the option and membership of the entity's priority in it; metadata is appended only under AddNyctMetadata with the documented language tag; the cause is MAINTENANCE / TECHNICAL_PROBLEM by id prefix and otherwise the wire cause, the effect comes from the priority table; the priority is the number after the last ':' of the sort order; the informed entities are read for priorities only where the elevator step (which replaces an elevator alert's selectors by plain stop selectors) can no longer follow; " +
+			"(ALRT) the timetabled no-service table is exactly {no midday, no overnight, no weekend service} and an alert is dropped only under the option and membership of the entity's priority in it; metadata is appended only under AddNyctMetadata with the documented language tag, and built only for an alert on which proto.HasExtension(alert, E_MercuryAlert) held (a checked assertion on GetExtension's result is no such test: it succeeds on the typed nil of an absent extension); the cause is MAINTENANCE / TECHNICAL_PROBLEM by id prefix and otherwise the wire cause, the effect comes from the priority table; the priority is the number after the last ':' of the sort order; the informed entities are read for priorities only where the elevator step (which replaces an elevator alert's selectors by plain stop selectors) can no longer follow; " +
 			"elevator alerts: cause maintenance, effect accessibility issue; the group id per policy is <station>#EL<elevator> / elevator:EL<elevator> / <platform>#EL<elevator> from the three regexp groups; the informed stop is the station id when configured, else the platform id; a stop is appended only if a scan over all of the group's informed entities found no equal stop id; every write of the elevator path is dominated by a successful id match and `false` is answered only under a failed match; in UpdateAlert `false` is answered only after the loop over all informed entities; the priority of an informed entity is reported missing only without a Mercury selector, without ':' in the sort order or for a non-numeric tail; InformedEntity on the elevator path is only ever emptied or extended by one fresh selector that carries nothing but the stop id; the duplicate test compares the stored stop ids with the very value that is appended; no container held by the extension object other than the table of group alerts is both written and read on the alert path (what is produced for one alert does not depend on the alerts before it); (SCAN) the loop over the informed entities is not left by a break. " +
 			"The extension's cross-feed state is reported under C06/C18 (known finding D12). (TABLES) the priority tables are literals of constants, only read after the initialiser.",
 		Rules: []Rule{
